@@ -41,10 +41,40 @@ func (d *Data) getMemDBbyVersion(v dvid.VersionID) (db *memdb, found bool) {
 	for branch := range d.dbs.head {
 		_, branchV, err := datastore.GetBranchHead(uuid, branch)
 		if err == nil && branchV == v {
+			// The branch database follows the head: what was loaded or written at an earlier
+			// head is what a version holds only if that version descends from it through
+			// single parents.  A head reached through a merge also sees the other parents'
+			// annotations, which were never loaded: answer such a version from the store.
+			if !d.dbs.head[branch].follows(v) {
+				return nil, false
+			}
 			return d.dbs.head[branch], true
 		}
 	}
 	return
+}
+
+// follows returns true if the content of this branch database is the content of version v:
+// v is the version it was loaded for (or last followed to) or descends from it through versions
+// with a single parent.  It then remembers v.
+func (mdb *memdb) follows(v dvid.VersionID) bool {
+	mdb.vmu.Lock()
+	defer mdb.vmu.Unlock()
+	if mdb.v == 0 || mdb.v == v {
+		mdb.v = v
+		return true
+	}
+	for cur := v; ; {
+		parents, err := datastore.GetParentsByVersion(cur)
+		if err != nil || len(parents) != 1 {
+			return false
+		}
+		cur = parents[0]
+		if cur == mdb.v {
+			mdb.v = v
+			return true
+		}
+	}
 }
 
 // in-memory neuron annotations with sorted body id list for optional sorted iteration.
@@ -54,6 +84,9 @@ type memdb struct {
 	fields     map[string]int64  // list of all fields and their counts for HEAD
 	fieldTimes map[string]string // timestamp of last update for each field in HEAD
 	mu         sync.RWMutex
+
+	v   dvid.VersionID // for a branch database: the version whose content it holds (0 = not loaded for any yet)
+	vmu sync.Mutex
 }
 
 // initializes the in-memory dbs for the given list of UUIDs + branch names in
@@ -81,6 +114,8 @@ func (d *Data) initMemoryDB(versions []string) error {
 					branch, d.DataName(), err)
 			} else if err := d.loadMemDB(v, mdb); err != nil {
 				return err
+			} else {
+				mdb.v = v
 			}
 			d.initFieldTimes(mdb)
 		} else {
